@@ -19,6 +19,7 @@
     cowat raises Z to the power 5./17., a double that is not exactly 5/17: (M) holds exactly for
     the exponent 5/17 and the theorem is stated for the DAG with that exponent ([fixpow]);
     Tables.cowat_exponent_b checks that the source's exponent is the double nearest 5/17. *)
+Set Warnings "-ambiguous-paths,-notation-overridden".
 From Coq Require Import ZArith QArith Qreals Reals List Bool Lia Lra.
 From Coquelicot Require Import Coquelicot.
 From P Require Import Expr Laurent Expand Jet PolyJet.
